@@ -5,6 +5,7 @@ from __future__ import annotations
 
 import asyncio
 import itertools
+from fractions import Fraction
 import multiprocessing
 import os
 import random
@@ -506,6 +507,7 @@ def run_series(ctx: Ctx, recipe: Dict[str, Any], cid: str) -> Case:
         if prof is None:
             return Case(cid, lines, recipe, False, sorted(tags))
         lines.append(f"t0 {clock['t']}")
+        prev_vals, prev_t = None, clock["t"]
         for op in recipe["ops"]:
             t, raws = int(op[0]), list(op[1])
             clock["t"] = t
@@ -527,6 +529,16 @@ def run_series(ctx: Ctx, recipe: Dict[str, Any], cid: str) -> Case:
             if any(x is not None for x in rates):
                 tags.add("rate:present")
                 nontrivial = True
+                # measured distance of the float from the exact quotient (design/C20.md, "float rates")
+                for k, x in enumerate(rates):
+                    pv = prev_vals[k] if prev_vals else None
+                    if x is not None and isinstance(pv, int) and isinstance(vals[k], int) and vals[k] > pv:
+                        exact = Fraction((vals[k] - pv) * 10**6, (1024 if k < 2 else 1) * (t - prev_t))
+                        rel = abs(Fraction(x) - exact) / exact
+                        tags.add("relerr:0" if rel == 0 else "relerr:<=2^-53" if rel <= Fraction(1, 2**53)
+                                 else "relerr:<=2^-52" if rel <= Fraction(1, 2**52) else "relerr:<=2^-51" if rel <= Fraction(1, 2**51)
+                                 else "relerr:>2^-51")
+            prev_vals, prev_t = vals, t
             if any(isinstance(v, BaseException) for v in vals):
                 tags.add("out:partial-failure")
                 nontrivial = True
